@@ -25,6 +25,9 @@ type c08Scenario struct {
 	// NoWriter: the pipes the cause does not need are left without a writer,
 	// so their ingesters are still waiting in open(2) when the cause strikes.
 	NoWriter bool
+	// Debug: the daemon runs with -log-level debug (a configuration dimension:
+	// code that only runs at that level must not change the shutdown behaviour).
+	Debug bool
 }
 
 var c08Causes = []string{
@@ -115,8 +118,11 @@ func (p *pump) halt() {
 }
 
 func c08Run(r *vlib.Run, sc c08Scenario, idx int) (evaluated bool) {
-	label := fmt.Sprintf("%s/saturated=%v/no-writer=%v/race=%v", sc.Cause, sc.Saturated, sc.NoWriter, sc.Race)
+	label := fmt.Sprintf("%s/saturated=%v/no-writer=%v/debug=%v/race=%v", sc.Cause, sc.Saturated, sc.NoWriter, sc.Debug, sc.Race)
 	o := daemonOpts{race: sc.Race}
+	if sc.Debug {
+		o.logLevel = "debug"
+	}
 	scratch, _ := os.MkdirTemp("", "verif-c08-")
 	defer os.RemoveAll(scratch)
 	switch sc.Cause {
@@ -150,6 +156,9 @@ func c08Run(r *vlib.Run, sc c08Scenario, idx int) (evaluated bool) {
 	}
 	if sc.NoWriter {
 		sig += ":no-writer-on-other-pipe"
+	}
+	if sc.Debug {
+		sig += ":log-level-debug"
 	}
 	misconfigured := strings.Contains(sc.Cause, "-path-")
 	var ws, wa *os.File
@@ -328,6 +337,7 @@ func checkC08(r *vlib.Run) int {
 		}
 		for _, c := range c08Causes {
 			scs = append(scs, c08Scenario{Cause: c, NoWriter: true})
+			scs = append(scs, c08Scenario{Cause: c, Debug: true})
 		}
 	} else {
 		for rep := 0; rep < 3; rep++ {
@@ -335,6 +345,8 @@ func checkC08(r *vlib.Run) int {
 				for _, c := range c08Causes {
 					scs = append(scs, c08Scenario{Cause: c, Race: race})
 					scs = append(scs, c08Scenario{Cause: c, Race: race, NoWriter: true})
+					scs = append(scs, c08Scenario{Cause: c, Race: race, Debug: true})
+					scs = append(scs, c08Scenario{Cause: c, Race: race, Debug: true, NoWriter: true})
 					if !strings.Contains(c, "-path-") && c != "audit-pipe-eof" {
 						scs = append(scs, c08Scenario{Cause: c, Saturated: true, Race: race})
 					}
@@ -370,7 +382,7 @@ func checkC08(r *vlib.Run) int {
 	for i, ok := range done {
 		if ok {
 			evals++
-			dist.Add(fmt.Sprintf("%s|%v|%v", scs[i].Cause, scs[i].Saturated, scs[i].NoWriter))
+			dist.Add(fmt.Sprintf("%s|%v|%v|%v", scs[i].Cause, scs[i].Saturated, scs[i].NoWriter, scs[i].Debug))
 		}
 	}
 	r.Set("causes", c08Causes)
@@ -379,7 +391,7 @@ func checkC08(r *vlib.Run) int {
 	r.Assumptions = []string{"'saturated' is observed: the pumping writer's write(2) hit EAGAIN at least five times before the fault is injected, otherwise the scenario is inconclusive",
 		"'does not exit' is a violation only if the SIGQUIT dump shows main parked in errgroup.Wait and a worker parked; otherwise inconclusive",
 		"signals may end the process with any status; failures must give a non-zero status"}
-	return r.Finish(evals, dist.Len(), "built daemon x failure cause {sshd pipe EOF, audit pipe EOF, malformed audit line, event write failure via /dev/full, sshd/audit path is a regular file / missing / a directory, SIGTERM, SIGINT} x load {idle with writers attached, idle with the other pipe still waiting for its writer, saturated by a pumping writer}; thorough: x3 and with the -race build; distinct = (cause, load) pairs evaluated")
+	return r.Finish(evals, dist.Len(), "built daemon x failure cause {sshd pipe EOF, audit pipe EOF, malformed audit line, event write failure via /dev/full, sshd/audit path is a regular file / missing / a directory, SIGTERM, SIGINT} x load {idle with writers attached, idle with the other pipe still waiting for its writer, saturated by a pumping writer} x log level {error, debug}; thorough: x3 and with the -race build; distinct = (cause, load) pairs evaluated")
 }
 
 func lastLineOf(s string) string {
